@@ -382,17 +382,18 @@ TTR == IF Grid = "small" THEN 2 ELSE 4        \* series length of the routing ca
 
 Tables == { <<R(2), R(0), R(4), R(1), Q(1, 2)>>,                              \* n=2: xs 0,4   ys 1, 1/2
             <<R(3), R(0), R(2), R(8), R(0), Q(1, 2), R(1)>>,                  \* n=3
-            <<R(4), R(0), R(1), R(3), R(8), Q(1, 4), Q(1, 4), Q(3, 4), R(0)>> }
+            <<R(4), R(0), R(1), R(3), R(8), Q(1, 4), Q(1, 4), Q(3, 4), R(0)>>,
+            <<R(3), R(0), R(2), R(8), R(0), Q(6, 5), Q(-1, 5)>> }             \* proportions outside [0,1]: the two outputs still sum to the input
 
 Cases(m) ==
     CASE m \in {"Input"} -> {[model |-> m, params |-> <<>>, inputs |-> <<s>>, states |-> <<>>] : s \in SeriesOf(ValsS, TT)}
       [] m \in {"Sum"} -> {[model |-> m, params |-> <<>>, inputs |-> <<s, u>>, states |-> <<>>] : s \in SeriesOf(ValsS, TT), u \in SeriesOf(Vals, TT)}
       [] m = "Gate" -> {[model |-> m, params |-> <<>>, inputs |-> <<s, u>>, states |-> <<>>] : s \in SeriesOf(ValsS, TT), u \in SeriesOf(Vals, TT)}
-      [] m = "FixedPartition" -> {[model |-> m, params |-> <<f>>, inputs |-> <<s>>, states |-> <<>>] : f \in Fracs, s \in SeriesOf(Vals, TT)}
+      [] m = "FixedPartition" -> {[model |-> m, params |-> <<f>>, inputs |-> <<s>>, states |-> <<>>] : f \in Fracs, s \in SeriesOf(ValsS, TT)}
       [] m = "VariablePartition" -> {[model |-> m, params |-> <<>>, inputs |-> <<s, u>>, states |-> <<>>] : s \in SeriesOf(Vals, TT), u \in SeriesOf(Fracs, TT)}
       [] m = "RatingCurvePartition" -> {[model |-> m, params |-> tb, inputs |-> <<s>>, states |-> <<>>] :
                                           tb \in Tables, s \in SeriesOf({R(0), R(1), R(2), R(3), Q(7, 2), R(4)}, 1)}
-      [] m = "PartitionDemand" -> {[model |-> m, params |-> <<>>, inputs |-> <<s, u>>, states |-> <<>>] : s \in SeriesOf(Vals, TT), u \in SeriesOf(ValsS, TT)}
+      [] m = "PartitionDemand" -> {[model |-> m, params |-> <<>>, inputs |-> <<s, u>>, states |-> <<>>] : s \in SeriesOf(ValsS, TT), u \in SeriesOf(ValsS, TT)}
       [] m \in {"ApplyScalingFactor", "DeliveryRatio"} -> {[model |-> m, params |-> <<f>>, inputs |-> <<s>>, states |-> <<>>] : f \in Scales \cup Fracs, s \in SeriesOf(Vals, TT)}
       [] m = "DepthToRate" -> {[model |-> m, params |-> <<dt, ar>>, inputs |-> <<s>>, states |-> <<>>] :
                                    dt \in {R(86400), R(3600)}, ar \in {R(0), R(1000), R(250000)}, s \in SeriesOf(Vals, TT)}
